@@ -42,6 +42,29 @@
 (*               wire as if they were set                                  *)
 (*   LeakMd      rendered metadata goes into ONE per-gun map that is never *)
 (*               cleared: keys of earlier steps travel with later calls    *)
+(*   LastWins    outgoing metadata is kept in a map keyed by the WIRE key: *)
+(*               of several written entries with one wire key only one     *)
+(*               value travels                                             *)
+(*                                                                         *)
+(*   RetryUnavailable  the transport repeats a call the target answered    *)
+(*               with UNAVAILABLE (a retry policy in the dial options)     *)
+(*                                                                         *)
+(* Answers.  A step carries `ans`: the status the TARGET answers this call *)
+(* with ("OK" or a gRPC status name).  Whatever the answer, the server     *)
+(* receives the call exactly ONCE per execution of the step (ReceivedOnce) *)
+(* and the step's one sample carries that answer: 200 for OK, otherwise    *)
+(* the failed code of the answered status (StatusCode).  An error answer   *)
+(* does not end a scenario execution (modelled, not judged).               *)
+(*                                                                         *)
+(* Metadata keys (the rule).  gRPC metadata keys are case-insensitive      *)
+(* ASCII and travel in lower case: a key written "AUTH" or "Auth" arrives  *)
+(* as "auth" (WireKey).  Entries whose keys differ only in case are ONE    *)
+(* key with several values: all values arrive (in no prescribed order).    *)
+(* A key ending in "-bin" carries arbitrary bytes (base64 on the wire,     *)
+(* decoded by the server: the value arrives as written); any other key     *)
+(* carries printable ASCII only.  An entry with an illegal key or a        *)
+(* non-ASCII value under a non-bin key cannot be attached: the call is     *)
+(* never sent and the step gets its one failed sample (Bad = "badmd").     *)
 (*                                                                         *)
 (* Run configuration rcfg = [shared, refl, T]: shared-client on/off,       *)
 (* reflection served by a SEPARATE server (reflect_port), per-call timeout *)
@@ -56,7 +79,7 @@ EXTENDS Integers, Sequences, FiniteSets, TLC
 CONSTANTS MaxGuns,      \* gun identities 1..MaxGuns (one warm-up gun + one per instance)
           MaxShots,     \* bound on scenario shots per run (design level only)
           KeepLog,      \* keep the log of received calls (design level); the trace spec checks on the fly
-          InPlace, AbortOnBad, DropMd, SharedDialsReflect, ScenarioDeadline, DirtyAfterFail, LeakMd, KeepDefaults
+          InPlace, AbortOnBad, DropMd, SharedDialsReflect, ScenarioDeadline, DirtyAfterFail, LeakMd, KeepDefaults, LastWins, RetryUnavailable
 
 VARIABLES kind,     \* "json" | "scn"
           file,     \* sequence of entries [name, steps]
@@ -98,6 +121,33 @@ InputType(m) == CASE m = "Hello" -> <<FStr("name")>>
 MdKeys == {"a", "b", "auth"}
 
 (************************ what a written step means *************************)
+\* the written metadata keys of the case space and the key they travel under
+WireKey(k) == CASE k \in {"a", "A"} -> "a"
+                [] k \in {"b", "B"} -> "b"
+                [] k \in {"auth", "AUTH", "Auth"} -> "auth"
+                [] k \in {"x-bin", "X-Bin"} -> "x-bin"
+                [] OTHER -> k
+IsBinKey(k) == WireKey(k) = "x-bin"
+LegalKey(k) == k \notin {"a b", "nonascii-key"}            \* a blank in the key / (symbolic name of) a key with a non-ASCII letter
+\* vf: "ascii" | "utf8" (the value contains non-ASCII characters)
+MdLegal(m) == LegalKey(m.k) /\ (m.vf = "utf8" => IsBinKey(m.k))
+\* why a step is never sent: as declared (unknown method, ill-typed payload, ...) or metadata that cannot be attached
+Bad(s) == IF s.bad # "none" THEN s.bad ELSE IF \E m \in s.md : ~MdLegal(m) THEN "badmd" ELSE "none"
+\* the sample code of an answered status (components/guns/grpc/core.go ConvertGrpcStatus; docs: grpc-generator.md)
+StatusCode(a) == CASE a = "OK" -> 200
+                   [] a = "CANCELLED" -> 499          [] a = "UNKNOWN" -> 500
+                   [] a = "INVALID_ARGUMENT" -> 400   [] a = "DEADLINE_EXCEEDED" -> 504
+                   [] a = "NOT_FOUND" -> 404          [] a = "ALREADY_EXISTS" -> 409
+                   [] a = "PERMISSION_DENIED" -> 403  [] a = "RESOURCE_EXHAUSTED" -> 429
+                   [] a = "FAILED_PRECONDITION" -> 400 [] a = "ABORTED" -> 409
+                   [] a = "OUT_OF_RANGE" -> 400       [] a = "UNIMPLEMENTED" -> 501
+                   [] a = "INTERNAL" -> 500           [] a = "UNAVAILABLE" -> 503
+                   [] a = "DATA_LOSS" -> 500          [] a = "UNAUTHENTICATED" -> 401
+Statuses == {"OK", "CANCELLED", "UNKNOWN", "INVALID_ARGUMENT", "DEADLINE_EXCEEDED", "NOT_FOUND", "ALREADY_EXISTS", "PERMISSION_DENIED",
+             "RESOURCE_EXHAUSTED", "FAILED_PRECONDITION", "ABORTED", "OUT_OF_RANGE", "UNIMPLEMENTED", "INTERNAL", "UNAVAILABLE", "DATA_LOSS",
+             "UNAUTHENTICATED"}
+\* a rendered metadata entry as the server sees it
+Wire(m) == [k |-> WireKey(m.k), pre |-> m.pre, tok |-> m.tok]
 Render(x, t) == [x EXCEPT !.tok = IF x.tok = "" THEN t ELSE x.tok]
 RenderSet(S, t) == {Render(x, t) : x \in S}
 \* a field written with its DEFAULT value ("" / 0; dv) is not part of a proto3 message: the message equals the payload
@@ -106,11 +156,11 @@ RenderFields(S, t) == {[f |-> x.f, pre |-> x.pre, tok |-> IF x.tok = "" THEN t E
 \* rec = [method, fields, md] as received: exactly the named method, the message equal to the
 \* payload (every written field with its value, nothing else), the entry's metadata attached
 Fits(step, rec) ==
-    /\ step.bad = "none"
+    /\ Bad(step) = "none"
     /\ rec.method = step.call
     /\ \E t \in {x.tok : x \in rec.fields \cup rec.md} \cup {"-"} :
           /\ rec.fields = RenderFields(step.fields, t)
-          /\ RenderSet(step.md, t) = rec.md        \* exactly the step's metadata (grpc's own entries are not in rec)
+          /\ {Wire(m) : m \in RenderSet(step.md, t)} = rec.md   \* exactly the step's metadata under its wire keys (grpc's own entries are not in rec)
 
 AllSteps(f) == UNION {Rng(f[i].steps) : i \in DOMAIN f}
 \* the keys of the shared template store: (call definition, metadata key)
@@ -167,12 +217,13 @@ CurStep(g) == file[sh[g].idx].steps[sh[g].step]
 \* srv: the server that received it -- the one the gun's stub is connected to
 SendAct(g, rec, newShared, newCache, drawn, srv, newScratch) ==
     /\ sh[g].ph = "call"
-    /\ CurStep(g).bad = "none"
+    /\ Bad(CurStep(g)) = "none"
     /\ ~(DirtyAfterFail /\ dirty[g])                  \* (negative control) a garbage-prefixed payload is never sent
     /\ srv = conn[g]
     /\ rcfg.T = 0 \/ clk[g] < rcfg.T                   \* the call starts with budget left
     /\ sh' = [sh EXCEPT ![g].ph = "sample"]
-    /\ recvlog' = IF KeepLog THEN recvlog \cup {[idx |-> sh[g].idx, step |-> sh[g].step, rec |-> rec, srv |-> srv]} ELSE recvlog
+    /\ recvlog' = IF KeepLog THEN recvlog \cup {[idx |-> sh[g].idx, step |-> sh[g].step, rec |-> rec, srv |-> srv,
+                                                  n |-> Cardinality({r \in recvlog : r.idx = sh[g].idx /\ r.step = sh[g].step})]} ELSE recvlog
     /\ shared' = newShared /\ cache' = newCache /\ nx' = nx + drawn
     /\ scratch' = newScratch
     /\ UNCHANGED <<kind, file, ninst, gst, started, done, stopped, nsample, xvars, dirty>>
@@ -181,14 +232,18 @@ SendAct(g, rec, newShared, newCache, drawn, srv, newScratch) ==
 Sample(g, tag, ok) ==
     /\ tag = CurStep(g).tag \/ CurStep(g).tag = "*"     \* "*": an undecodable line has no tag of its own
     /\ \/ /\ sh[g].ph = "call" /\ ~ok                                   \* never sent: failed sample
-          /\ \/ CurStep(g).bad # "none"
+          /\ \/ Bad(CurStep(g)) # "none"
              \/ ScenarioDeadline /\ rcfg.T > 0 /\ clk[g] >= rcfg.T      \* (negative control) deadline used up by think time
              \/ DirtyAfterFail /\ dirty[g]                             \* (negative control) leftovers of a failed render
-          /\ sh' = [sh EXCEPT ![g].ph = "end", ![g].failed = TRUE]
-       \/ /\ sh[g].ph = "sample" /\ ok                                  \* answered by the target
+          \* metadata that cannot be attached fails inside InvokeRpc like an error answer: the scenario goes on with
+          \* its next step; every other never-sent step ends this execution (modelled, not judged)
+          /\ sh' = [sh EXCEPT ![g] = IF Bad(CurStep(g)) = "badmd" /\ sh[g].step < Len(file[sh[g].idx].steps)
+                                     THEN [@ EXCEPT !.step = @ + 1, !.ph = "call", !.failed = TRUE]
+                                     ELSE [@ EXCEPT !.ph = "end", !.failed = TRUE]]
+       \/ /\ sh[g].ph = "sample" /\ ok = (CurStep(g).ans = "OK")          \* answered by the target: ok iff the answer is OK
           /\ sh' = [sh EXCEPT ![g] = IF sh[g].step < Len(file[sh[g].idx].steps)
-                                     THEN [@ EXCEPT !.step = @ + 1, !.ph = "call"]
-                                     ELSE [@ EXCEPT !.ph = "end"]]
+                                     THEN [@ EXCEPT !.step = @ + 1, !.ph = "call", !.failed = @ \/ ~ok]
+                                     ELSE [@ EXCEPT !.ph = "end", !.failed = @ \/ ~ok]]
     /\ nsample' = [nsample EXCEPT ![sh[g].idx] = IF ok THEN [@ EXCEPT !.ok = @ + 1] ELSE [@ EXCEPT !.fail = @ + 1]]
     \* per-call deadline: the next call starts a fresh one; the step's sleep is not charged to anything
     /\ clk' = [clk EXCEPT ![g] = IF ScenarioDeadline /\ ok THEN @ + CurStep(g).sleep ELSE 0]
@@ -203,6 +258,15 @@ ShootEnd(g) ==
     /\ sh' = [sh EXCEPT ![g] = Idle]
     /\ UNCHANGED <<kind, file, ninst, gst, started, shared, cache, nx, recvlog, nsample, xvars, gvars>>
 
+\* (negative control) the transport sends the call again after an UNAVAILABLE answer
+Resend(g) ==
+    /\ RetryUnavailable /\ KeepLog
+    /\ sh[g].ph = "sample" /\ CurStep(g).ans = "UNAVAILABLE"
+    /\ Cardinality({r \in recvlog : r.idx = sh[g].idx /\ r.step = sh[g].step}) < 2 * (done[sh[g].idx] + 1)
+    /\ \E r \in recvlog : /\ r.idx = sh[g].idx /\ r.step = sh[g].step
+                          /\ recvlog' = recvlog \cup {[r EXCEPT !.n = Cardinality({q \in recvlog : q.idx = r.idx /\ q.step = r.step})]}
+    /\ UNCHANGED <<kind, file, ninst, gst, sh, started, done, stopped, shared, cache, nx, nsample, xvars, gvars>>
+
 (*********** what the modelled gun puts on the wire (design level) **********)
 Tok(n) == "t" \o ToString(n)   \* the n-th value of the variable source (opaque)
 \* templater.Apply for metadata key m of call definition d by gun g drawing token t
@@ -214,7 +278,9 @@ ModelSend(g) ==
         templ == {m \in s.md : m.tok = ""}
         mdAll == {[m EXCEPT !.tok = MdVal(g, s.def, m, t)] : m \in s.md}
         own   == IF DropMd THEN {m \in mdAll : m.k # "a"} ELSE mdAll
-        md    == IF LeakMd THEN own \cup {m \in scratch[g] : \A o \in own : o.k # m.k} ELSE own
+        kept  == IF LastWins THEN {CHOOSE m \in own : WireKey(m.k) = w : w \in {WireKey(m.k) : m \in own}} ELSE own
+        mdw   == IF LeakMd THEN kept \cup {m \in scratch[g] : \A o \in kept : o.k # m.k} ELSE kept
+        md    == {Wire(m) : m \in mdw}
         rec   == [method |-> s.call, md |-> md,
                   fields |-> IF KeepDefaults THEN {[f |-> x.f, pre |-> x.pre, tok |-> IF x.tok = "" THEN t ELSE x.tok] : x \in s.fields}
                              ELSE RenderFields(s.fields, t)]
@@ -226,7 +292,7 @@ ModelSend(g) ==
                                                THEN MdVal(g, s.def, CHOOSE m \in templ : x = <<s.def, m.k>>, t)
                                                ELSE shared[x]]
                  ELSE shared
-    IN SendAct(g, rec, ns, nc, IF kind = "scn" THEN 1 ELSE 0, conn[g], IF LeakMd THEN [scratch EXCEPT ![g] = md] ELSE scratch)
+    IN SendAct(g, rec, ns, nc, IF kind = "scn" THEN 1 ELSE 0, conn[g], IF LeakMd THEN [scratch EXCEPT ![g] = mdw] ELSE scratch)
 
 RECURSIVE SumTo(_, _)
 SumTo(f, n) == IF n = 0 THEN 0 ELSE f[n] + SumTo(f, n - 1)
@@ -237,8 +303,9 @@ Next ==
     \/ \E g \in Guns, i \in 0..(ninst - 1) : Bind(g, i)
     \/ \E g \in Guns, idx \in DOMAIN file : (kind = "scn" => Shots < MaxShots) /\ ShootBegin(g, idx, 0)
     \/ \E g \in Guns : ModelSend(g)
-    \/ \E g \in Guns : sh[g].ph \in {"call", "sample"} /\ Sample(g, CurStep(g).tag, sh[g].ph = "sample")
+    \/ \E g \in Guns : sh[g].ph \in {"call", "sample"} /\ Sample(g, CurStep(g).tag, sh[g].ph = "sample" /\ CurStep(g).ans = "OK")
     \/ \E g \in Guns : ShootEnd(g)
+    \/ \E g \in Guns : Resend(g)
 
 (****************************** properties *********************************)
 TypeOK ==
@@ -255,18 +322,23 @@ Fidelity == \A r \in recvlog : Fits(file[r.idx].steps[r.step], r.rec)
 TargetReceivesAll == \A r \in recvlog : r.srv = "target"
 
 \* a bad step is never sent; every executed step reports exactly one sample of the right outcome
-BadNeverSent == \A r \in recvlog : file[r.idx].steps[r.step].bad = "none"
+BadNeverSent == \A r \in recvlog : Bad(file[r.idx].steps[r.step]) = "none"
 
 \* shared definitions (the metadata templates of the step) are never altered
 SharedUnaltered == \A x \in DOMAIN shared : shared[x] = "T"
 
 AllIdle == \A g \in Guns : sh[g].ph = "idle"
 \* expected outcome of one execution of entry i: samples up to and including the first bad step
-FirstBad(e) == IF \E j \in DOMAIN e.steps : e.steps[j].bad # "none"
-               THEN CHOOSE j \in DOMAIN e.steps : e.steps[j].bad # "none" /\ \A jj \in 1..(j - 1) : e.steps[jj].bad = "none"
+Aborts(st) == Bad(st) \notin {"none", "badmd"}
+FirstBad(e) == IF \E j \in DOMAIN e.steps : Aborts(e.steps[j])
+               THEN CHOOSE j \in DOMAIN e.steps : Aborts(e.steps[j]) /\ \A jj \in 1..(j - 1) : ~Aborts(e.steps[jj])
                ELSE 0
-ExpOk(e)   == IF FirstBad(e) = 0 THEN Len(e.steps) ELSE FirstBad(e) - 1
-ExpFail(e) == IF FirstBad(e) = 0 THEN 0 ELSE 1
+Executed(e) == IF FirstBad(e) = 0 THEN DOMAIN e.steps ELSE 1..FirstBad(e)
+ExpOk(e)   == Cardinality({j \in Executed(e) : Bad(e.steps[j]) = "none" /\ e.steps[j].ans = "OK"})
+ExpFail(e) == Cardinality({j \in Executed(e) : Bad(e.steps[j]) # "none" \/ e.steps[j].ans # "OK"})
+\* whatever the target answers, it receives every executed good step exactly once per execution
+ExpSent(e) == Cardinality({j \in Executed(e) : Bad(e.steps[j]) = "none"})
+ReceivedOnce == (KeepLog /\ AllIdle) => \A i \in DOMAIN file : Cardinality({r \in recvlog : r.idx = i}) = done[i] * ExpSent(file[i])
 \* once nothing is in flight, every finished execution reported exactly the samples of its steps
 SamplesExact == AllIdle => \A i \in DOMAIN file : /\ nsample[i].ok = done[i] * ExpOk(file[i])
                                                    /\ nsample[i].fail = done[i] * ExpFail(file[i])
